@@ -51,7 +51,7 @@ def decorate(lines, lang_name, rnd, pick, header=False, tags_entry=False):
                 ln["pad"] = rnd.choice(SPACE_PADS)
                 in_doc = (ln["a"], ln["pad"])
             else:
-                ln["pad"] = u"" if (tags_entry and k == 0) else rnd.choice(PADS)
+                ln["pad"] = rnd.choice(PADS)
                 trail = rnd.choice([u"", u"", u"", u" ", u"  \t"])
             if c == "Step" and ln["a"] == "star" and not star_ok(lang_name):
                 ln["a"] = "and"                      # en-tx, sl: no '* ' alias; And is equivalent where * is allowed
@@ -66,7 +66,7 @@ def decorate(lines, lang_name, rnd, pick, header=False, tags_entry=False):
             elif c == "Row":
                 ln["cellpad"] = rnd.choice([0, 1, 1, 2, 3])
             elif c == "_":
-                ln["blank"] = u"" if tags_entry else rnd.choice([u"", u"", u"   ", u"\t"])
+                ln["blank"] = rnd.choice([u"", u"", u"   ", u"\t"])
         ln["ind"] = len(ln["pad"]) if c != "_" else 0
         t, kw = render.to_text(ln, render.lang("en") if header else lg, lg, texts, rnd)
         ln["kw"] = kw
